@@ -241,7 +241,8 @@ def strategy(draw):
     N = draw(st.integers(1, 12))
     bt = draw(st.sampled_from(["num_batches", "batchsize", "default"]))
     if bt == "num_batches":
-        spec = ["num_batches", draw(st.integers(1, min(8, N)))]
+        N = min(N, 8)
+        spec = ["num_batches", draw(st.integers(1, N + 2))]
     elif bt == "batchsize":
         s = draw(st.integers(1, N))
         while -(-N // s) > 8:
